@@ -25,6 +25,13 @@ CLAIMS = {
     'C05': dict(tech='well-formedness predicate (Obs.tla WellFormedMismatches) evaluated by TLC on the raw, un-abstracted ranges of every recorded list result',
                 text='Uniqueness of (src,dst), no self / ip-ip / empty entries, IP peers form a partition of 0.0.0.0-255.255.255.255 into single ranges, canonical port ranges, all-connections flag <=> three full ranges: '
                      'checked by TLC on every list observation of NetworkPolicy and admin-policy worlds.', ref='6/C05'),
+    'C08': dict(tech='Determinism events: every command x format x exposure run twice on 4 layouts of the same abstract world (canonical; split/permuted over nested directories with List wrapping; semantically unordered rule/peer/port lists permuted), output hashes compared by TLC (Obs.tla DeterminismMismatches); worlds from TLC behaviours and seeded generators',
+                text='All outputs for one key (command/format/exposure) must be byte-identical across layouts and repeats, for list (5 formats, exposure on/off) and diff (4 formats) on every replayed world. '
+                     'The layout dimension is explored systematically per world; Go map-iteration schedules are only sampled (exploration-level for that dimension).', ref='6/C08',
+                note=M1_NOTE + ' Map iteration orders are sampled, not enumerated. Selector internals (order of matchExpressions/values) are not permuted: the exposure report echoes selectors as written.'),
+    'C09': dict(tech='Format / DiffFormat events: the tool\'s own output of every format is parsed back (package formats of the harness) and compared by TLC, as sets of canonical rows, with the API result of the same run and with every other format (Obs.tla FormatMismatches, DiffFormatMismatches)',
+                text='For every replayed world: rows(txt)=rows(json)=rows(csv)=rows(md)=rows(dot)=API relation for list (connections, exposure rows, IP rows repeated in exposure sections, unprotected lines), and rows(txt)=rows(csv)=rows(md)=API added/removed/changed entries with both connection values and workload annotations for diff; dot diff additionally unchanged edges and new/lost peer colouring.', ref='6/C09',
+                note=M1_NOTE + ' The five list parsers and four diff parsers in /verif/harness/formats are trusted (independent of the tool\'s formatting code).'),
     'C10': dict(tech='TLA+ reference of Ingress/Route -> Service -> workload -> TCP container ports, intersected with the policy reference for a hypothetical unlabeled pod in an unknown namespace (IngressRef.tla); TLC behaviours with AddService/AddIngress/AddRoute edits replayed on the real list command; trace validation',
                 text='The {ingress-controller} => W lines and blocked-backend warnings of every replayed state (Services with named/numbered ports and targetPorts, Ingress default/rule backends by number or name, Routes with to/alternateBackends/targetPort, '
                      'workloads with TCP and UDP container ports, NetworkPolicies and admin policies) must equal IngressRef!IngressLine; a known finding (Ingress number matching a targetPort) is reported as such.', ref='6/C10'),
